@@ -49,6 +49,14 @@ def big_feed(rng, total, enc="utf-8", nonascii_at=None, decl_enc=None, broken=Fa
     return doc + "</channel></rss>"
 
 
+def _undecodable(enc, b):
+    try:
+        bytes([b]).decode(enc)
+        return False
+    except UnicodeDecodeError:
+        return True
+
+
 class NonSeekable:
     def __init__(self, data, rng=None, short=False):
         self._b, self._rng, self._short = io.BytesIO(data), rng, short
@@ -102,7 +110,7 @@ class TextNonSeekable:
         self.closed_called = True
 
 
-BYTE_FORMS = ["bytes", "bytesio", "bytesio-offset", "nonseekable", "short-reads", "seekable-short-reads", "seekable-short-reads#2", "seekable-short-reads#3", "seekable-short-reads#4", "file", "path"]
+BYTE_FORMS = ["bytes", "bytesio", "bytesio-offset", "nonseekable", "short-reads", "seekable-short-reads", "seekable-short-reads#2", "seekable-short-reads#3", "seekable-short-reads#4", "file", "rawfile", "path"]
 TEXT_FORMS = ["str", "stringio", "text-nonseekable", "stringio-offset"]
 
 
@@ -132,14 +140,14 @@ def run_form(data, form, headers, optimistic, rng, tmpdir):
         src = stream = NonSeekable(data, rng, short=True)
     elif form.startswith("seekable-short-reads"):
         src = stream = ShortSeekable(data, int(form.partition("#")[2] or 0))
-    elif form in ("file", "path"):
+    elif form in ("file", "path", "rawfile"):
         p = os.path.join(tmpdir, "f%d.xml" % rng.randrange(10**9))
         with open(p, "wb") as f:
             f.write(data)
         if form == "path":
             src = p
         else:
-            fh = open(p, "rb")
+            fh = open(p, "rb") if form == "file" else open(p, "rb", buffering=0)      # rawfile: an unbuffered io.FileIO (a seekable RawIOBase)
             src = stream = fh
     elif form == "str":
         src = data
@@ -236,6 +244,23 @@ def judge(case, rng, tmpdir):
     return out
 
 
+HOLE_CODECS = ["windows-1251", "windows-1252", "windows-1253", "windows-1250", "cp874", "iso-8859-7", "windows-1255", "windows-1257", "iso-8859-3", "iso-8859-8"]
+
+
+def hole_case(rng, enc, after=None):
+    """a single-byte code page with unassigned byte values: one such byte before / after the prefix boundary"""
+    holes = [b for b in range(128, 256) if _undecodable(enc, b)]
+    doc = big_feed(rng, 2**16 + 3000, enc="utf-8", decl_enc=enc).replace("naïve", "plain").replace("日本", "x")
+    b = bytearray(doc.encode("ascii", "replace"))
+    if after is None:
+        after = rng.random() < 0.5
+    pos = 2**16 + rng.randint(10, 2500) if after else rng.randint(200, 60000)
+    if holes:
+        b[pos:pos] = bytes([rng.choice(holes)])
+    hdr = rng.choice([None, {"content-type": "application/xml; charset=%s" % enc}])
+    return {"kind": "bytes", "data": bytes(b), "headers": hdr, "label": "invalid-byte/%s/%s" % (enc, "before" if pos < 2**16 else "after")}
+
+
 def gen_case(rng):
     r = rng.random()
     if r < 0.15:
@@ -275,6 +300,8 @@ def gen_case(rng):
         except LookupError:
             data = doc.encode("utf-8")
         return {"kind": "bytes", "data": data, "headers": None, "label": "encoding/%s" % enc}
+    if r < 0.68:
+        return hole_case(rng, rng.choice(HOLE_CODECS))
     if r < 0.75:
         # an undecodable byte before / after the prefix boundary
         enc = rng.choice(["utf-8", "utf-8", "big5", "shift_jis", "euc-jp"])
@@ -297,8 +324,9 @@ def search(ctx, focus=None):
     dist = {}
     tmpdir = tempfile.mkdtemp(prefix="c07_")
     try:
-        for _ in range(ctx.n(22, 400)):
-            case = gen_case(rng)
+        cases = [hole_case(rng, enc, after=True) for enc in HOLE_CODECS]         # every code page with holes, each run
+        cases += [gen_case(rng) for _ in range(ctx.n(16, 400))]
+        for case in cases:
             nforms = len(BYTE_FORMS) * 2 if case["kind"] == "bytes" else len(TEXT_FORMS) + 1
             n += nforms
             key_doc = (case["data"] if isinstance(case["data"], bytes) else case["data"].encode("utf-8"), str(case["headers"]))
@@ -315,9 +343,9 @@ def search(ctx, focus=None):
         os.rmdir(tmpdir)
     return {"evaluations": n, "distinct_nontrivial": len(distinct), "failures": failures, "distribution": dist,
             "rule": "documents {small vocabulary-wide feeds; feeds of 300 B - 90 KB dense in 2-byte characters (a read ending anywhere is likely to end inside one); ~64 KiB + feeds with a run of 2/3/4-byte characters placed at every alignment (-6..+6) around byte 65536, declared utf-8 / us-ascii / "
-                    "undeclared, XML media types with and without charset; UTF-16/32, latin-1, windows-1252, koi8-r at sizes straddling 2**13 and 2**16 +/- 4; an undecodable byte before / "
+                    "undeclared, XML media types with and without charset; single-byte code pages with an UNASSIGNED byte value before / after the prefix boundary; UTF-16/32, latin-1, windows-1252, koi8-r at sizes straddling 2**13 and 2**16 +/- 4; an undecodable byte before / "
                     "after the prefix boundary; text documents around the 8192-character text prefix, well-formed and damaged} x delivery {bytes, BytesIO, BytesIO at an offset, non-seekable "
-                    "stream, short-read stream, SEEKABLE short-read stream, open file, path | str, StringIO, StringIO at an offset, non-seekable text stream} x optimistic on/off; oracle: pairwise equality of feed, "
+                    "stream, short-read stream, SEEKABLE short-read stream, open file, unbuffered raw file (io.FileIO), path | str, StringIO, StringIO at an offset, non-seekable text stream} x optimistic on/off; oracle: pairwise equality of feed, "
                     "entries, encoding, version, namespaces, bozo class; caller streams not closed; no fd left open after parse(path); distinct = distinct (document, headers, delivery form, optimistic flag)",
             "samples": [{"label": "boundary-64k/utf-8"}]}
 
